@@ -80,6 +80,9 @@ class SendProto(Suite):
                 opt["readsizes"] = [rng.choice([4096, 10000, 32768, 0]) for _ in range(rng.randint(1, 4))]
             if rng.random() < 0.2:
                 opt["delay"] = rng.choice([5, 50])
+            if len(tree) <= 40 and rng.random() < 0.25:
+                # the sender's SendMsg(STAT) returns late: a request racing the STAT stream arrives before the sender got control back
+                opt["linger"] = rng.choice([200, 1000])
             ops.append({"op": "sendproto", "src": {"kind": "mem", "tree": tree}, "reqs": reqs, "opt": opt})
         return ops
 
@@ -224,6 +227,9 @@ class RecvProto(Suite):
                 ref["eof_before_fin"] = True
             op = {"op": "recvproto", "src": {"kind": "mem", "tree": tree}, "dst": dst, "ref": ref,
                   "opt": {"cap": rng.choice([0, 1, 4, 32, 64]), "seed": rng.randrange(1 << 30)}}
+            if not wide and rng.random() < 0.3:
+                # the receiver's SendMsg(REQ) returns late: the answer of an eager sender races with whatever the receiver does "after sending"
+                op["opt"]["linger"] = rng.choice([200, 1000])
             if rng.random() < 0.15:
                 regs = [i for i, e in enumerate(tree) if e["t"] == "file"]
                 if regs:
